@@ -21,13 +21,32 @@ def main():
     ap.add_argument('--jobs', type=int, default=4)
     ap.add_argument('--workers', type=int, default=2)
     ap.add_argument('--props', default=','.join(try_patch.PROPS))
+    ap.add_argument('--auto-props', action='store_true', help='only the checks whose evidence lists a function the patch touches')
     a = ap.parse_args()
     props = a.props.split(',')
     allres = {}
+    units = {}
+    if a.auto_props:
+        import glob, re
+        for e in glob.glob(os.path.join(try_patch.VERIF, 'evidence', 'C*.json')):
+            d = json.load(open(e))
+            for u in d.get('coverage', {}).get('units_analysed', []):
+                units.setdefault(str(u).split('.')[-1], set()).add(d['property_id'])
+
+    def props_for(p):
+        if not a.auto_props:
+            return props
+        import re
+        txt = open(p).read()
+        names = set(re.findall(r'^@@.*@@.*?(?:def|class) ([A-Za-z_0-9]+)', txt, re.M)) | set(re.findall(r'^[-+ ]\s*def ([A-Za-z_0-9]+)', txt, re.M))
+        sel = set()
+        for n in names:
+            sel |= units.get(n, set())
+        return sorted(sel) or props
 
     def one(p):
         try:
-            return p, try_patch.run(p, props, a.jobs, 'quick', a.workers)
+            return p, try_patch.run(p, props_for(p), a.jobs, 'quick', a.workers)
         except Exception as e:
             return p, dict(error=f"{type(e).__name__}: {e}")
     with ThreadPoolExecutor(a.parallel) as ex:
